@@ -3,8 +3,8 @@
    in every state that satisfies the lock-ownership invariant inv1 (proved for all reachable states in
    LocksProofs.v) and inv2, if some client is inside a call (or owns an open transaction) then some step that is
    not a client arrival is enabled.  Preservation of inv2 is proved in Conc/LocksInv.v for every step of a
-   client (one lemma per label); the steps of the three background goroutines are not done yet, which is why
-   the deadlock-freedom theorem is stated with inv2 as a hypothesis (no_deadlock_partial). *)
+   client (one lemma per label) and in Conc/LocksInvBg.v for the steps of the three background goroutines;
+   Conc/LocksInvAll.v assembles them (inv2_reachable) and derives the unconditional no_deadlock. *)
 From GL Require Import Conc.Locks Conc.LocksProofs.
 From Coq Require Import Lia.
 
